@@ -100,6 +100,21 @@ claim("C12", "static: P-ORD decision tables (level-order comparator, per-entry c
       "equality of merged views for all workloads; which selections a workload triggers; log retirement while data is only in memory.",
       "DESIGN.md §2 C12")
 
+claim("C13", "static: path rules and an order-abstract decision table over WALBatchApplier.ApplyEntries (SSA), who-may-write rules for the cursor fields, value-flow rule for the reported sequence, offset-addressed codec agreement (manual shift loops) with field binding, flag/value-flow rule for Compressed",
+      "the apply callback runs only behind first == expectedNextSeq and, inside a batch, only for previous+1 (table over previous-2..previous+3); the cursor is written only after the completed loop, to last / last+1, never for an empty batch or on a failing exit; the cursor fields have no writer outside constructor/ApplyEntries/AcknowledgeUpTo/Reset and Reset is never called with a foreign position; acknowledged positions only move forward on both sides; the reported applied sequence is assigned only from ApplyEntries' result or GetMaxApplied(); SerializeWALEntry and DeserializeWALEntry agree field by field and bind the same entry fields; no response claims Compressed for payloads that were not compressed; the read-only arm applies through PutInternal/DeleteInternal.",
+      "all delivery schedules (reordering, duplication, overlap of push and poll, reconnects); equality of replica state with a primary prefix.",
+      "DESIGN.md §2 C13")
+
+claim("C14", "static: dominance rule on log-object publications, holder enumeration over struct fields, value-identity rules between record arguments and observer entries, sibling contract between the batch producer's successor relation and the consumer's decision table (P-ORD), unit (dimension) analysis of sequence positions, pass-through rules for the catch-up reader, must-pass rule in the poll loop",
+      "structural preconditions of convergence: a replaced log object receives the old one's observers before publication and no outside component stays bound to the log object of its construction (both violated on this tree: recorded findings); observers are told exactly the type/sequence/key/value of the record written, only behind the write; the successor relation the log emits inside a batch is one the replica's apply loop accepts (violated: recorded finding); 'next expected' and 'last acknowledged' positions are never assigned to each other without ±1; the catch-up reader serves the requested position and the senders read from the position they were asked for; the poll re-sends whenever the log is ahead of the acknowledged position.",
+      "convergence itself, time bounds, join/restart timing, the replica state machine's liveness (its handlers request transitions the tracker refuses — observed end to end, costs a reconnect per batch but does not prevent convergence), retention racing with a slow replica.",
+      "DESIGN.md §2 C14")
+
+claim("C19", "static: delegation table over the RPC set enumerated from the generated server interface (resolved invoke targets and argument identity), pruned-edge reachability for limit tests, straight-line rejection paths scanned for mutating operations, captured-variable identity for BatchWrite's deferred rollback, must-pass rule for handle removal, order-abstract walk (P-ORD) of the scan handlers over all option combinations",
+      "every RPC has a confirmed row, reaches the operations of its row with the request's own key/value in the right positions and no foreign mutating operation; the documented limits are installed by the constructor only and no data operation is reachable without the key/value/batch tests; a rejected request performs no mutating operation (TxGet violates this: recorded finding); every failing exit of BatchWrite returns the variable its deferred rollback tests; Tx* handlers use the transaction only on the found edge and Commit/Rollback remove the handle on every exit; for each of 8 option combinations Scan/TxScan build the iterator the embedded API would (prefix/suffix filters over a full iterator, range(start,end), full); tombstones are neither sent nor counted; an empty value is not a deletion.",
+      "equality of responses with the embedded API for all request sequences and data sets; gRPC transport behaviour; connection-bound cleanup; GetStats contents.",
+      "DESIGN.md §2 C19")
+
 NOT_APPLICABLE_PENDING = "rules for this property are not built yet (work in progress, see DESIGN.md §2); nothing is claimed until the check exists"
 
 def main():
